@@ -86,6 +86,27 @@ def util_ops(r):
         ops.append(("melody.evaluate", (t, f, t.copy(), f2, v, w), {}))
         ops.append(("melody.to_cent_voicing", (t, f, t.copy(), f2, v, w), {}))
         ops.append(("melody.freq_to_voicing", (f2, v.copy()), {}))
+    # matching helpers on caller-owned float arrays: chroma (wrapping) first, plain after
+    nfr = r.randrange(1, 4)
+    rf = [np.array([r.randrange(40 * 8, 90 * 8) / 8.0 for _ in range(r.randrange(0, 4))])
+          for _ in range(nfr)]
+    ef = [np.array([x + r.choice([0, 0.25, 12, -12, 0.5]) for x in f] +
+                   [r.randrange(40 * 8, 90 * 8) / 8.0 for _ in range(r.randrange(0, 2))])
+          for f in rf]
+    ops.append(("multipitch.compute_num_true_positives", (rf, ef),
+                {"window": 0.5, "chroma": True}))
+    ops.append(("multipitch.compute_num_true_positives", (rf, ef), {"window": 0.5}))
+    a1 = np.array([60.0, 73.0, 50.5, 47.25])
+    a2 = np.array([72.25, 61.0, 38.0, 90.0])
+    ops.append(("util._outer_distance_mod_n", (a1, a2), {}))
+    ops.append(("util.match_events", (a1, a2, 0.5), {}))
+    ops.append(("util.hz_to_midi", (np.array([220.0, 440.0, 446.0]),), {}))
+    ops.append(("util.midi_to_hz", (np.array([57.0, 69.0, 69.25]),), {}))
+    # non-uniform time base (linear interpolation path with its warning)
+    tn = np.array([0.0, 0.125, 0.25, 0.5, 0.625, 1.0])
+    fn_ = np.array([220.0, 220.0, 0.0, 330.0, 330.0, 440.0])
+    ops.append(("melody.resample_melody_series",
+                (tn, fn_, (fn_ > 0).astype(float), np.arange(0, 1.01, 0.0625)), {}))
     return ops
 
 
@@ -94,6 +115,10 @@ def sonify_ops(r):
     fs = 1000
     t = gen.events(r, kind="regular", max_n=6) / 4.0
     ops.append(("sonify.clicks", (t, fs), {}))
+    if t.size:
+        # output shorter than the last click: the truncation branches
+        ops.append(("sonify.clicks", (t, fs), {"length": int(t[-1] * fs) + 10}))
+        ops.append(("sonify.clicks", (t, fs), {"length": max(1, int(t[-1] * fs) - 5)}))
     rng = np.random.default_rng(r.randrange(2 ** 31))
     gram = np.abs(rng.standard_normal((4, 10)))
     ops.append(("sonify.time_frequency", (gram, np.array([110., 220., 330., 440.]),
@@ -103,6 +128,8 @@ def sonify_ops(r):
     # NaN is a documented "un-voiced" marker
     fq = np.array([220.0, np.nan, 330.0, 0.0, np.nan, 440.0, -110.0, 220.0])
     ops.append(("sonify.pitch_contour", (np.linspace(0, 1, 8), fq, fs), {}))
+    ops.append(("sonify.pitch_contour", (np.linspace(0, 1, 8), np.abs(np.nan_to_num(fq)), fs),
+                {"amplitudes": np.linspace(0.25, 1.0, 8)}))
     ops.append(("sonify.chroma", (np.abs(rng.standard_normal((12, 8))),
                                   np.linspace(0, 1, 8), fs), {}))
     ops.append(("sonify.chords", (["C", "D:min", "N", "X"],
